@@ -613,6 +613,19 @@ fn write_evidence(
             "runs_by_terminal_action": st.by_terminal,
             "faults_fired": st.faults,
             "rare_condition_probes": st.probes,
+            "crash_points_fired_site_k_len": st.crash_points_fired,
+            "crash_points_configured_but_not_reached": st.crash_points_not_reached,
+            "c16_grid": if prop == "C16" {
+                serde_json::json!({
+                    "grid_points": crate::gen::c16_grid_size(),
+                    "runs_per_point_and_pass": crate::gen::C16_SCHEDULES_PER_POINT + 1,
+                    "passes_completed": st.runs / (crate::gen::c16_grid_size() * (crate::gen::C16_SCHEDULES_PER_POINT + 1)).max(1),
+                    "input_grid_enumerated_completely": st.runs >= crate::gen::c16_grid_size() * (crate::gen::C16_SCHEDULES_PER_POINT + 1),
+                    "schedules": "sampled"
+                })
+            } else {
+                serde_json::Value::Null
+            },
             "histories_checked_for_linearizability": st.lin_checked,
             "linearizability_states_visited": st.lin_states,
             "runs_torn_down_after_hang_verdict": st.aborted_runs,
